@@ -95,7 +95,7 @@ def install(ctx, lentil):
 
 def workload(ctx, lentil):
     rng = ctx.rng
-    n = 90 if ctx.tier == 'quick' else 700
+    n = ctx.count(90, 700)
     hi = 20 if ctx.tier == 'quick' else 40
     ctx.notes['families'] = []
     for i in range(n):
